@@ -70,8 +70,8 @@ def main():
     m = {
         "version": 1,
         "setup_cmd": "cd /verif && ./setup.sh",
-        "hooks": {"guard": "fpdec_verif", "enable": "none needed: private functions are reached through the MIR dump; RUSTFLAGS='--cfg fpdec_verif' would enable hooks if any existed",
-                  "baseline_off_cmd": "cd /repo && cargo test --workspace --no-fail-fast --offline", "source_commits": [], "add_only": True},
+        "hooks": {"guard": "fpdec_verif", "enable": "RUSTFLAGS='--cfg fpdec_verif' when building the native replay driver (/verif/replay); the MIR dumps are taken with the guard off",
+                  "baseline_off_cmd": "cd /repo && cargo test --workspace --no-fail-fast --offline", "source_commits": ["9654da5"], "add_only": True},
         "engines": [
             {"name": "mir2smt", "path": "/verif/mir2smt", "serves_properties": sorted(CLAIMED), "kind_free_text": "MIR -> SMT symbolic executor (z3 5.1, Int theory), path-wise with optional state merging"},
             {"name": "kani", "path": "/verif/kani", "serves_properties": ["C15"], "kind_free_text": "Kani 0.68 / CBMC 6.11 proof harnesses over the real crate (path dependency)"},
